@@ -94,6 +94,56 @@ class M(Model):
         last = states[-1]
         return all(all(x in seen[a] for x in self._todo(last, a)) for a in range(self.A))
 
+    # ------------------------------------------------------------------------------ 'crowd' plan mode
+    def crowd_step(self, s, episode_seed, r=0):
+        """Same-step conflicts: as many agents as possible legally select the same node (ties between two, three,
+        ... agents are resolved by a random permutation inside the env); the others play a legal node."""
+        lg = self.legal(s)
+        counts = lg.sum(axis=0)
+        # free utility nodes first (a tie there decides who owns the node), any node otherwise
+        util = np.asarray(s.node_types, np.int64) == -1
+        if (counts * util).max(initial=0) >= 2:
+            counts = counts * util
+        best = int(counts.max()) if counts.size else 0
+        act = np.zeros(self.A, np.int64)
+        for a in range(self.A):
+            idx = np.flatnonzero(lg[a])
+            act[a] = int(idx[(r + a) % idx.size]) if idx.size else 0
+        if best >= min(3, self.A):
+            cands = np.flatnonzero(counts == best)
+            v = int(cands[r % cands.size])
+            for a in range(self.A):
+                if lg[a, v]:
+                    act[a] = v
+            return act
+        # one-step lookahead: move as many agents as possible next to one free utility node (a hub), so that they can
+        # all enter it on the following step
+        adj = self._adj(s)
+        visited = self._visited(s)
+        taken = set().union(*visited) if visited else set()
+        hubs = [h for h in range(self.N) if util[h] and h not in taken]
+        best_h, best_moves = None, {}
+        for off in range(len(hubs)):
+            h = hubs[(off + r) % len(hubs)]
+            moves = {}
+            for a in range(self.A):
+                us = [u for u in np.flatnonzero(lg[a]) if u != h and adj[u, h]]
+                if us:
+                    free = [u for u in us if u not in moves.values()]
+                    moves[a] = int((free or us)[(r + a) % len(free or us)])
+            if len(moves) > len(best_moves):
+                best_h, best_moves = h, moves
+        if best_h is not None and len(best_moves) >= 2:
+            for a, u in best_moves.items():
+                act[a] = u
+        elif best >= 2:
+            cands = np.flatnonzero(counts == best)
+            v = int(cands[r % cands.size])
+            for a in range(self.A):
+                if lg[a, v]:
+                    act[a] = v
+        return act
+
     # ------------------------------------------------------------------------------ C04
     def legal(self, s, ignore_finished=False):
         adj = self._adj(s)
